@@ -1,7 +1,7 @@
 # type: ignore
 """
 miniB: a second well-formed configuration for C20.  Compared with the demo configuration (and miniA) it renames every key,
-basetype and type code, names the leaf key 'fmt' (not 'ext'), has a third basetype ('lib'), one hierarchy level more
+basetype and type code, names the leaf key 'fmt' (not 'ext'), has a third basetype whose name contains an underscore ('l_ib'), per-basetype leaf keys ('rev' for 'ct'), one hierarchy level more
 (fam / item), closed vocabularies of its own, a digit-only revision pattern, and its value codes overlap between keys
 ('p' is both a kind and a status) while every mapping stays one-to-one.
 """
@@ -23,13 +23,13 @@ sid_templates = {
     'ct':          '{prj}/{kind:c}',
 
     # basetype lib: prj / kind / item / fmt
-    'lib__file':   '{prj}/{kind:l}/{item}/{fmt:images}',                  # extrapolated
-    'lib':         '{prj}/{kind:l}',
+    'l_ib__file':   '{prj}/{kind:l}/{item}/{fmt:images}',                  # extrapolated
+    'l_ib':       '{prj}/{kind:l}',
 
     'prj':         '{prj}',
 }
 
-to_extrapolate = ['pr__status', 'ct__status', 'lib__file']
+to_extrapolate = ['pr__status', 'ct__status', 'l_ib__file']
 
 formats_image = ['i', 'j', 'k']
 formats_movie = ['u', 'w']
@@ -62,16 +62,17 @@ key_patterns = {
 key_types = {
     'pr':  ['prj', 'kind', 'fam', 'item', 'rev', 'status', 'fmt'],
     'ct':  ['prj', 'kind', 'reel', 'rev', 'status', 'fmt'],
-    'lib': ['prj', 'kind', 'item', 'fmt'],
+    'l_ib': ['prj', 'kind', 'item', 'fmt'],
     'prj': ['prj'],
 }
 
-leaf_keys = {'pr': 'fmt', 'ct': 'fmt', 'lib': 'fmt', 'prj': 'fmt', None: 'fmt'}
+# the leaf key differs per basetype: for 'ct' it is an inner level ('rev') of the others
+leaf_keys = {'pr': 'fmt', 'ct': 'rev', 'l_ib': 'fmt', 'prj': 'fmt', None: 'fmt'}
 
 basetyped_search_narrowing = {
     'pr': 'kind=~p',
     'ct': 'kind=~c',
-    'lib': 'kind=~l',
+    'l_ib': 'kind=~l',
 }
 
 typed_search_narrowing = {}
